@@ -13,14 +13,21 @@ from pathlib import Path
 from . import common, c01_trace
 from .common import gbool, glist
 
-# universe: 0-3 main texts with a module surface, 4 blank, 5 skip_file, 6.. a long chain of surface-free texts
+# universe: every base text once terminated (id i) and once without its final LF (id NB + i).
+# bases: 0-3 main texts with a module surface, 4 blank, 5 skip_file, 6.. a long chain of surface-free texts
 CORE = ["A=1", "B=1", "def C():0", "D=1", "", "#pyrefact:skip_file"]
 NCHAIN = 34
-U = CORE + [f"N{i}" for i in range(NCHAIN)]
+BASES = CORE + [f"N{i}" for i in range(NCHAIN)]
+NB = len(BASES)
+U = [b + "\n" for b in BASES] + BASES
 NU = len(U)
 UID = {t: i for i, t in enumerate(U)}
 BITS = {"A": 1, "B": 2, "C": 4, "D": 8}
-SURFACE = {0: 1, 1: 2, 2: 4, 3: 8}                      # independent reading of main.py:189-201 on the universe
+SURFACE = {0: 1, 1: 2, 2: 4, 3: 8, NB: 1, NB + 1: 2, NB + 2: 4, NB + 3: 8}   # independent reading of the safe-mode surface
+# the wrapper main.format_code (repair 9438482), read independently on the universe
+NEEDS_NL = [i for i, t in enumerate(U) if t and t[-1] not in "\r\n"]
+ADD_NL = {i: UID[U[i] + "\n"] for i in NEEDS_NL}
+STRIP_NL = {i: UID[t[:-1]] for i, t in enumerate(U) if t.endswith("\n")}
 SKIP_RE = re.compile(r"#\s*pyrefact\s*:\s*skip_file")     # main.py:167
 IS_SKIP = [i for i, t in enumerate(U) if SKIP_RE.search(t)]
 IS_BLANK = [i for i, t in enumerate(U) if not t.strip()]  # main.py:174
@@ -116,8 +123,8 @@ def run_real(mods, case: Case):
     with tr:
         try:
             with common.quiet():
-                res = mods["main"].format_code(tr.traced_str(U[case.inp]), preserve=unmask(case.p0), safe=case.safe,
-                                               keep_imports=case.keep, max_line_length=case.maxlen)
+                res = tr.format_code(U[case.inp], preserve=unmask(case.p0), safe=case.safe,
+                                     keep_imports=case.keep, max_line_length=case.maxlen)
             case.result = UID.get(str(res), 999)
         except Exception as e:  # noqa
             case.problems.append(f"format_code raised {type(e).__name__}: {e}")
@@ -171,6 +178,7 @@ def g_case(case: Case, names: list[str], max_passes: int) -> str:
             entries.append(f"({k}, {body})")
     return (f"(mkPCase {NU} {len(names)} {max_passes} {gbool(case.safe)} {gbool(case.keep)} {case.p0} {case.maxlen} {case.inp} "
             f"{glist(entries)} {glist(IS_SKIP)} {glist(IS_BLANK)} {glist(case.invalid)} {g_pairs(case.level)} {g_pairs(SURFACE)} "
+            f"{glist(NEEDS_NL)} {g_pairs(ADD_NL)} {g_pairs(STRIP_NL)} "
             f"{case.result} {glist(compress(case.trace, len(names)))} {glist(case.ctx)})")
 
 
@@ -221,6 +229,10 @@ def exhaustive_cases(names, stride=1, offset=0):
                     level = {0: 0 if v == 2 else 4}
                     script["textwrap.dedent"] = {0: 1 + fi % 3}
                     script["textwrap.indent"] = {1: 0, 2: 0, 3: 0}
+                if (fi + v) % 3 == 1 and not indented:
+                    inp += NB                                   # the same text without its final LF: the wrapper terminates it
+                if fi % 5 == 2:
+                    script["processing.minimize_whitespace_line_differences"] = {1: NB + 1, 2: NB + 2}   # unterminated result
                 yield Case(safe, keep, 1 if v == 1 else 0, 60 if v == 2 else 100, inp, script, invalid, level, "exhaustive")
 
 
@@ -228,6 +240,16 @@ def special_cases(names):
     out = []
     for safe, keep in itertools.product((False, True), repeat=2):
         mk = lambda *a, **k: out.append(Case(safe, keep, 0, 100, *a, fam="special", **k))
+        mk(NB + 5)                                                             # skip_file, unterminated: comes back unterminated
+        mk(NB + 5, {"rmspace.format_str": {5: 0}})
+        mk(NB + 4)                                                             # the empty text: the wrapper does not terminate it
+        mk(NB + 0)                                                             # unterminated input, all stages identity
+        mk(NB + 0, {"fixes.sort_imports": {0: NB + 1}})                         # unterminated result: nothing to strip
+        mk(NB + 0, {"fixes.sort_imports": {0: 4}})                              # result is a lone LF: stripped to the empty text
+        mk(NB + 2, {"str.expandtabs": {2: 4}})                                  # blank early return through the wrapper
+        mk(NB + 1, {}, invalid=[1])                                            # invalid early return through the wrapper
+        mk(NB + 1, {"textwrap.dedent": {1: NB + 3}}, invalid=[1, NB + 3], level={1: 2})
+        mk(4)                                                                  # a lone LF (terminated blank)
         mk(5)                                                                  # skip_file
         mk(5, {"rmspace.format_str": {5: 0}})                                   # ... whatever the stages would do
         mk(4)                                                                  # blank input
@@ -276,5 +298,9 @@ def random_cases(rnd, names, n):
             script[name] = {i: rnd.randrange(size) for i in range(size) if rnd.random() < 0.6}
         invalid = [i for i in range(size) if rnd.random() < 0.25]
         level = {i: rnd.choice([0, 2, 4]) for i in range(size) if rnd.random() < 0.5}
+        if rnd.random() < 0.3:                    # stages that hand back unterminated texts
+            name = rnd.choice(list(script))
+            script[name] = {**script[name], **{i: NB + rnd.randrange(size) for i in range(size) if rnd.random() < 0.3}}
+        inp = rnd.randrange(size) + (NB if rnd.random() < 0.35 else 0)
         yield Case(rnd.random() < 0.5, rnd.random() < 0.5, rnd.choice([0, 1, 2, 12]), rnd.choice([60, 88, 100]),
-                   rnd.randrange(size), script, invalid, level, "random")
+                   inp, script, invalid, level, "random")
